@@ -135,6 +135,17 @@ Example C12_former_D08_witness_holds :
   /\ option_map bo_funcs (bo_enc c)
      = Some [base_f 9999 None; mkFO 31 [0] [] [(1, 1)] [(10, [31%Z]); (11, []); (1, [])] None].
 Proof. vm_compute. repeat split; reflexivity. Qed.
+(* the former D02 witness (build f, then convert_local_fn_to_import(1) and (0): the import section listed the two new
+   imports in call order while the index space holds them in function order, so a `call` of the import made from
+   function 0 reached the other import): the import section is emitted in index order and the property holds *)
+Example C12_former_D02_witness_holds :
+  let c := self_b [([], [])] [] [base_f 11 None; base_f 12 None; base_f 9999 None]
+             [BBuild 31 [] [] [] [(10, [31%Z]); (11, [])] (Some 7); BLocalToImport 1 21; BLocalToImport 0 22] [0; 1; 3] in
+  agree c = true /\ bo_rets c = [Some 3; None; None]
+  /\ dom_of (verdict12 c) = true /\ holds_of (verdict12 c) = true /\ known_of (verdict12 c) = []
+  /\ option_map bo_imports (bo_enc c) = Some [(0, 22); (0, 21)]
+  /\ option_map bo_sites (bo_enc c) = Some [(0, 0); (1, 1); (2, 3)].
+Proof. vm_compute. repeat split; reflexivity. Qed.
 (* non-vacuity: two builds (one with a signature already in the type section, repeated local types, a name; one with a
    v128 parameter and an explicit `end` inside the built sequence) interleaved with two import additions and a deletion,
    five references: inside the domain, the property holds, and the output is what one expects *)
